@@ -195,3 +195,6 @@ pub fn tokenize(w: &mut Worker, s: &str) -> Result<Vec<Tok>, String> {
 pub fn toks_brief(t: &[Tok]) -> Vec<String> {
     t.iter().map(|t| format!("{}..{}:{}|{}|k{}#{}|l{} r{} w{} t{}", t.cs, t.ce, t.surface, t.feat, t.lex, t.word_id, t.l, t.r, t.wcost, t.total)).collect()
 }
+
+/// Per-thread panic state is a thread-local; nothing to set up (kept for symmetry).
+pub fn install_thread_panic_state() {}
